@@ -346,3 +346,70 @@ M('c07-new-is-partial', [(LIB, '''            assemble::MockAssembler::try_from_
             FallbackMode::Error,''', '''            assemble::MockAssembler::try_from_clause(setup),
             FallbackMode::Unmock,''')], {'C07': r'R07\.2'})
 M('c07-report-wrong-error', [('src/private.rs', 'Self::Unmock => error::MockError::CannotUnmock { info: F::info() },', 'Self::Unmock => error::MockError::NoDefaultImpl { info: F::info() },')], {'C07': r'R07\.3'})
+
+# ---- C12 -------------------------------------------------------------------------------------
+OWN = 'src/output/owning.rs'
+M('c12-clone-instead-of-take', [(OWN, '''impl<T0, T: Send + Sync + 'static> IntoReturnOnce<Owning<T>> for T0
+where
+    T0: Into<T>,''', '''impl<T0, T: Send + Sync + Clone + 'static> IntoReturnOnce<Owning<T>> for T0
+where
+    T0: Into<T>,'''), (OWN, 'mutex.locked(|option| option.take())', 'mutex.locked(|option| option.clone())')], {'C12': r'R12\.[12]'})
+M('c12-check-then-take', [(OWN, 'mutex.locked(|option| option.take())', 'if mutex.locked(|option| option.is_some()) { mutex.locked(|option| option.take()) } else { None }')], {'C12': r'R12\.2'})
+M('c12-n-times-bound-relaxed', [(BLD, '''    pub fn n_times(mut self, times: usize) -> QuantifiedResponse<'p, F, O, Exact>
+    where
+        T: IntoReturn<F::OutputKind>,
+        <<F as MockFn>::OutputKind as Kind>::Return: IntoReturner<F>,
+    {
+        self.wrapper.push_returner_result(
+            self.return_value
+                .take()
+                .unwrap()
+                .into_return()''', '''    pub fn n_times(mut self, times: usize) -> QuantifiedResponse<'p, F, O, Exact>
+    where
+        <<F as MockFn>::OutputKind as Kind>::Return: IntoReturner<F>,
+    {
+        self.wrapper.push_returner_result(
+            self.return_value
+                .take()
+                .unwrap()
+                .into_return_once()''')], {'C12': r'R12\.5'})
+M('c12-forget', [(OWN, '''        let value = self.into();
+        Ok(Owned(Box::new(move || Some(value.clone()))))''', '''        let value: T = self.into();
+        core::mem::forget(value.clone());
+        Ok(Owned(Box::new(move || Some(value.clone()))))''')], {'C12': r'R12\.4', 'C13': r'R13\.4'})
+M('c12-partial-on-inner-none', [('src/output/deep/result.rs', '            Self::Err(val) => Some(Err(val.output()?)),', '            Self::Err(val) => match val.output() { Some(v) => Some(Err(v)), None => return None.or(None) },')], silent=['C12'])
+
+# ---- C13 -------------------------------------------------------------------------------------
+VC = 'src/value_chain.rs'
+M('c13-return-parent', [(VC, '''                Err((parent_node, node)) => {
+                    new_node = node;
+                    cell = &parent_node.next;
+                }''', '''                Err((parent_node, node)) => {
+                    if core::mem::size_of_val(&node) == 0 {
+                        return parent_node;
+                    }
+                    new_node = node;
+                    cell = &parent_node.next;
+                }''')], {'C13': r'R13\.2'})
+M('c13-return-root', [(VC, '''                Ok(new_node) => {
+                    return new_node;
+                }''', '''                Ok(_new_node) => {
+                    return self.root.get().unwrap();
+                }''')], {'C13': r'R13\.2'})
+M('c13-forbid-removed', [(LIB, '#![forbid(unsafe_code)]', '#![deny(unsafe_code)]')], {'C13': r'R13\.1', 'C10': r'R10\.3'})
+M('c13-teardown-forgets-chain', [(TD, 'drop(core::mem::take(&mut unimock.value_chain));', 'core::mem::forget(core::mem::take(&mut unimock.value_chain));')], {'C13': r'R13\.4'})
+
+# ---- C14 -------------------------------------------------------------------------------------
+M('c14-tuple-dropped-index', [('src/clause.rs', 'tuple_nonterminal_impl! { [T1, T2, T3, T4, T5, T6, T7, T8, T9, T10, T11, T12], [0, 1, 2, 3, 4, 5, 6, 7, 8, 9, 10, 11] }', 'tuple_nonterminal_impl! { [T1, T2, T3, T4, T5, T6, T7, T8, T9, T10, T11, T12], [0, 1, 2, 3, 4, 5, 6, 7, 8, 9, 10] }')], {'C14': r'R14\.1'})
+M('c14-question-mark-dropped', [('src/clause.rs', '                $(self.$index.deconstruct(sink)?;)+', '                $(let _ = self.$index.deconstruct(sink);)+')], {'C14': r'R14\.1'})
+M('c14-mode-check-last-only', [(ASM, 'if entry.get().pattern_match_mode != pattern_match_mode {', 'if entry.get().pattern_match_mode != pattern_match_mode && entry.get().call_patterns.len() < 2 {')], {'C14': r'R14\.2'})
+M('c14-ctor-ignores-err', [(LIB, '''            Err(error) => panic!("{error}"),''', '''            Err(_error) => Default::default(),''')], {'C14': r'R14\.3'})
+M('c14-at-least-bound-removed', [(BLD, '''    pub fn at_least_times(mut self, times: usize) -> QuantifiedResponse<'p, F, O, AtLeast>
+    where
+        O: Ordering<Kind = InAnyOrder>,
+    {''', '''    pub fn at_least_times(mut self, times: usize) -> QuantifiedResponse<'p, F, O, AtLeast>
+    {''')], {'C14': r'R14\.4'})
+M('c14-empty-stub-accepted', [(BLD, '''        if self.patterns.is_empty() {
+            return Err("Stub contained no call patterns".to_string());
+        }
+''', '')], {'C14': r'R14\.3'})
